@@ -15,12 +15,16 @@
   ghost `hb` moves knowledge exclusively through the release fence / relaxed store / relaxed load /
   acquire fence chain the source has (orders are the generated constants of Babylon.Gen.Topic, so a
   weakened fence breaks `ordPubFence_releases` / `ordAcqFence_acquires` and with them this file).
-  Not proved: the wake-up handshake under a weak memory model (DESIGN's `topic_wake_view`); status
-  and waiter bit share one futex word accessed with mixed sizes, which is outside both the C++
-  model and Babylon.Core.MemView; `topic_no_lost_wakeup` is the SC statement.
+  Weak memory (section "view model" at the end, proofs in Babylon/Topic/View.lean over
+  Babylon.Core.MemView, stale reads allowed): `topic_publication_view` (+ `_seq` through the word's
+  release sequence) and `topic_wake_view*` for the waiter / waker handshake, with negative controls
+  for a relaxed publish fence and for a dropped seq_cst fence.  Modelling choices of the handshake
+  (the waiter has NO seq_cst fence in user code — the barrier is futex_wait's; the two halves of the
+  mixed-size word are two locations, which only adds behaviours) are stated at the theorems.
 -/
 import Babylon.Topic.Progress
 import Babylon.Topic.Sched
+import Babylon.Topic.View
 
 namespace Babylon.Properties.C15
 open Babylon.Topic Babylon.Gen.Topic Babylon.Core
@@ -161,6 +165,96 @@ theorem topic_clear_eq_new {c : Cfg} (hbs : 0 < c.bs) {s s' : State} (h : Reach 
   rw [hp] at hs
   simp only [Option.some.injEq, Prod.mk.injEq] at hs
   rw [← hs.1]; exact this
+
+
+/-! ### The two synchronisation cores over the release/acquire VIEW model (stale reads allowed)
+
+Proofs in Babylon/Topic/View.lean over Babylon/Core/MemView.lean; `Ext` hypotheses stand for
+"arbitrary steps of anybody in between".  Orders are the generated constants. -/
+section ViewModel
+open Babylon.Core.MemView Babylon.Topic.View
+variable {L : Type} [DecidableEq L]
+
+/-- **Item publication, view model.**  Publisher `p`: plain item write; `fence(ordPubFence)`;
+`status.store(PUBLISHED, ordStatusStore)`.  Consumer `c`: loads that status message with
+`ordIsPublished`; `fence(ordAcqFence)`; reads the item cell at any admissible timestamp `ts`.  In
+every view-model execution the status read is PUBLISHED, the item read is not older than the
+publisher's write (no stale item), and equals the published value when the cell was written once. -/
+theorem topic_publication_view (m : Mem L) (p c : Nat) (li ls : L) (hne : li ≠ ls) (item : Nat) (o : Core.Ord)
+    {m3 m4 m5 m7 m8 : Mem L} {s x ts : Nat}
+    (hext : (((m.write p li .rlx item).fence p ordPubFence).write p ls ordStatusStore stPublished).Ext m3)
+    (hst : m3.read c ls ordIsPublished (m.len ls) = some (m4, s))
+    (hext2 : m4.Ext m5)
+    (hext3 : (m5.fence c ordAcqFence).Ext m7)
+    (hrd : m7.read c li o ts = some (m8, x)) :
+    s = stPublished ∧ m.len li ≤ ts ∧ (m7.len li = m.len li + 1 → x = item) :=
+  View.topic_publication_view m p c li ls hne item o hext hst hext2 hext3 hrd
+
+/-- … also when the consumer's status load returns a later message of the word's release sequence
+(the word is only modified by RMWs after the status store; `RelSeq` is established by
+`View.topic_publication_relseq` and kept by `View.relseq_rmw` / `View.relseq_hist_eq`). -/
+theorem topic_publication_view_seq (m : Mem L) (p c : Nat) (li ls : L) (item : Nat) (o : Core.Ord)
+    {m3 m4 m5 m7 m8 : Mem L} {s x ts tsS : Nat}
+    (R : RelSeq m3 ls (m.len ls) ((m.write p li .rlx item).tv p).cur) (htsS : m.len ls ≤ tsS)
+    (hst : m3.read c ls ordIsPublished tsS = some (m4, s))
+    (hext2 : m4.Ext m5)
+    (hext3 : (m5.fence c ordAcqFence).Ext m7)
+    (hrd : m7.read c li o ts = some (m8, x)) : m.len li ≤ ts :=
+  View.topic_publication_view_seq m p c li ls item o R htsS hst hext2 hext3 hrd
+
+/-- NEGATIVE CONTROL (publication): with the orders of the source a consumer that saw PUBLISHED cannot
+read the stale item (`none` = not a behaviour); with a relaxed publish fence, or a relaxed consumer
+fence, it can (`some 100` = status 1, item 0). -/
+theorem topic_publication_view_needs_fences :
+    mpRun ordPubFence ordAcqFence 1 0 = none ∧ mpRun ordPubFence ordAcqFence 1 1 = some 107 ∧
+    mpRun .rlx ordAcqFence 1 0 = some 100 ∧ mpRun ordPubFence .rlx 1 0 = some 100 := by decide
+
+/-- **`topic_wake_view`, waker's fence first**: the waker stores the status and executes its
+`seq_cst` fence; a waiter that afterwards passes the full barrier of `futex_wait` cannot read, in the
+kernel's value check, a status older than that store — it does not sleep on a stale INITIAL.
+(Status half and waiter half of the futex word are two locations `st` / `wt` here.) -/
+theorem topic_wake_view_waker_first (m : Mem L) (p c : Nat) (st : L) (sv : Nat) (o : Core.Ord)
+    {m2 m3 m4 : Mem L} {ts v : Nat}
+    (hext : ((m.write p st ordStatusStore sv).fence p ordPubScFence).Ext m2)
+    (hext2 : (m2.fence c .sc).Ext m3)
+    (hrd : m3.read c st o ts = some (m4, v)) : m.len st ≤ ts :=
+  View.topic_wake_view_waker_first m p c st sv o hext hext2 hrd
+
+/-- **`topic_wake_view`, waiter's barrier first**: the waiter sets the waiter bit (RMW,
+`ordWaitCasSucc`) and passes the barrier of `futex_wait`; a waker that afterwards executes its
+`seq_cst` fence and loads the waiter half (`ordWakeLoad`) cannot miss that RMW — it sees the waiter
+bit and wakes.  One of the two fences is first in every execution: at least one side sees the other. -/
+theorem topic_wake_view_waiter_first (m : Mem L) (p c : Nat) (wt : L) (f : Nat → Nat)
+    {m1 m2 m3 m4 : Mem L} {old ts v : Nat}
+    (hrmw : m.rmw c wt ordWaitCasSucc f = some (m1, old))
+    (hext : (m1.fence c .sc).Ext m2)
+    (hext2 : (m2.fence p ordPubScFence).Ext m3)
+    (hrd : m3.read p wt ordWakeLoad ts = some (m4, v)) : m.len wt ≤ ts :=
+  View.topic_wake_view_waiter_first m p c wt f hrmw hext hext2 hrd
+
+/-- the waker-first statement for `close()` -/
+theorem topic_wake_view_close (m : Mem L) (p c : Nat) (st : L) (o : Core.Ord)
+    {m2 m3 m4 : Mem L} {ts v : Nat}
+    (hext : ((m.write p st ordClosedStore stClosed).fence p ordCloseScFence).Ext m2)
+    (hext2 : (m2.fence c .sc).Ext m3)
+    (hrd : m3.read c st o ts = some (m4, v)) : m.len st ≤ ts :=
+  View.topic_wake_view_close m p c st o hext hext2 hrd
+
+/-- **`topic_wake_view` (exhaustive litmus form)**: waker `[status store; fence; load waiter half]`
+against waiter `[RMW waiter half; futex barrier; load status]` from the initial memory: in none of the
+interleavings of the view model do both sides read the other's initial message (= lost wake-up) —
+for `publish_n`'s fence and for `close`'s. -/
+theorem topic_wake_view : lostWakeup ordPubScFence .sc = false ∧ lostWakeup ordCloseScFence .sc = false := by
+  decide
+
+/-- NEGATIVE CONTROL (handshake): with the waker's `seq_cst` fence dropped or weakened to acq_rel the
+wake-up can be lost, and the waiter's side needs the barrier of `futex_wait` too.  A source change
+that weakens the fence changes `ordPubScFence`, and `topic_wake_view` above stops checking. -/
+theorem topic_wake_view_needs_fence :
+    lostWakeup .rlx .sc = true ∧ lostWakeup .acqrel .sc = true ∧ lostWakeup ordPubScFence .rlx = true := by
+  decide
+
+end ViewModel
 
 /-! ### Non-vacuity: concrete executions with block size 2 (ranges straddle blocks) -/
 
